@@ -331,6 +331,14 @@ def r7_json_document(chk):
         root, path, filters = expr_info(tm.env, outs[0][1])
         ok = root == 'mib' and path == () and filters == ['tojson']
     chk.ob('C03.R7', 'jsondoc/base.j2', ok, tm.rel, 'outputs: %s' % [o[1] for o in outs])
+    # ... and JsonCodeGen.genCode hands that rendering back untouched (no textual post-processing of the document)
+    from vt.runner import Check
+    from rules.C04 import r1_shared_ir
+    tmp = Check(chk.prop, chk.tier, chk.model, chk.repo)
+    r1_shared_ir(tmp)
+    for o_ in tmp.obligations:
+        if o_.key == 'JsonCodeGen.genCode/rendered-text-returned-as-is':
+            chk.ob('C03.R7', o_.key, o_.ok, o_.where, o_.detail)
     ci = model.cls(INTER, 'IntermediateCodeGen')
     n = 0
     for mname, fn in sorted(ci.methods.items()):
